@@ -315,6 +315,7 @@ impl<'a> Interp<'a> {
                     }
                 }
                 Ev::UnknownDealloc { .. } => out.push(8),
+                Ev::Overrun { .. } => out.push(13),
                 Ev::AllocFail { .. } => out.push(10),
                 Ev::Dtor { id } => {
                     out.push(1);
